@@ -58,7 +58,9 @@ SPEC = {
             "direction, three cells on a side, degenerate cells, repeated points, 0/1/2-gons, out-of-range indices, "
             "unsupported types, wrong lengths, num_cells / CELL_TYPES mismatches); random well-formed maps with removed, "
             "isolated darts and open faces (export panics / partial polygons); the excluded points of DESIGN par.7 (cracks, "
-            "partially glued pillow, repeated directed vertex pair); wide 53-bit coordinates; f32 (implementation only). "
+            "partially glued pillow, repeated directed vertex pair); wide 53-bit coordinates; conforming meshes at tiny and huge "
+            "scales (coordinates k/2^34 and k*2^30 in f64, k/2^14 and k*2^30 in f32: squared side lengths far below machine "
+            "epsilon / far above 1) which must behave exactly as at unit scale; f32 (implementation only). "
             "distinct_nontrivial = distinct implementation transcripts.",
     "not_proved": [],   # filled below
 }
@@ -432,6 +434,10 @@ class Builder:
 
     def sew(self, d, e):
         self.sews.append((d, e))
+
+    def scale(self, f):
+        self.co = [None if c is None else (c[0] * f, c[1] * f) for c in self.co]
+        return self
 
     def lines(self, auto=True):
         n = len(self.b1) - 1
@@ -904,6 +910,92 @@ def cracked_grid_cases(rng, count, nmax=4):
 
 
 # ---------------------------------------------------------------------------------------------
+# tiny and huge scales: the behaviour must not depend on the unit of length
+# ---------------------------------------------------------------------------------------------
+
+SCALES64 = [("tiny", Fr(1, 2 ** 34)), ("huge", Fr(2 ** 30))]     # side length^2 = 2^-68 (far below f64 epsilon) / 2^60
+SCALES32 = [("tiny", Fr(1, 2 ** 14)), ("huge", Fr(2 ** 30))]     # side length^2 = 2^-28 (below f32 epsilon) / 2^60
+
+
+def f32_exact(q):
+    q = Fr(q)
+    if q == 0:
+        return True
+    num, den = abs(q.numerator), q.denominator
+    while num % 2 == 0:
+        num //= 2
+    return num < 2 ** 24 and den & (den - 1) == 0 and den <= 2 ** 100
+
+
+def strip_builder(rng, k):
+    b = Builder()
+    for i in range(k):
+        x0, x1 = Fr(2 * i), Fr(2 * i + 2)
+        top = [(x1 - Fr(t + 1, 4), Fr(2) + Fr(t % 2, 2)) for t in range(rng.randint(0, 2))]
+        b.face([(x0, Fr(0)), (x1, Fr(0)), (x1, Fr(2))] + top + [(x0, Fr(2))])
+    return b
+
+
+def scaled_mesh(rng, f, wmax=3):
+    pts, cells = lattice_mesh(rng, rng.randint(1, wmax), rng.randint(1, wmax))
+    pts = [(x * f, y * f, z) for (x, y, z) in pts]
+    return dress(rng, pts, cells, extras=False)
+
+
+def scale_cases(rng, count):
+    """conforming meshes with coordinates k/2^34 and k*2^30 (exact in f64): import, export and round trip as at unit scale"""
+    cases = []
+    for tag, f in SCALES64:
+        for split in (0, 1):
+            for (nx, ny) in [(1, 1), (2, 2), (3, 2), (4, 4)]:
+                ox, oy = f * rng.randint(-3, 3), f * rng.randint(-3, 3)
+                lx, ly = f * rng.choice([1, 2, 3]), f * rng.choice([1, 3, Fr(1, 2)])
+                cases.append(rt_case(f"scale-{tag}-grid{split}-{nx}x{ny}", [grid_line(split, ox, oy, nx, ny, lx, ly)],
+                                     f"{tag} scale grid"))
+        for c in range(count):
+            b = fan_of_polygons(rng, rng.choice([2, 3])).scale(f)
+            cases.append(rt_case(f"scale-{tag}-fan{c}", b.lines(), f"{tag} scale polygons sharing sides"))
+            b = strip_builder(rng, rng.randint(2, 3)).scale(f)
+            cases.append(rt_case(f"scale-{tag}-strip{c}", b.lines(), f"{tag} scale polygons in a strip"))
+            pts, tc = scaled_mesh(rng, f)
+            lines = ["new 2 0 0", imp_line(0, pts, tc), "snap", "wf", "vtkexp"]
+            cases.append(Case(f"scale-{tag}-imp{c}", lines, oracle="imp",
+                              meta={"sig": f"{tag} scale conforming list", "tags": ["imp", "snap", "wf", "exp"],
+                                    "pts": pts, "cells": tc}))
+            if tc:
+                cases.append(rt_case(f"scale-{tag}-imp{c}-rt", [imp_line(0, pts, tc)], f"{tag} scale conforming list (round trip)"))
+    return cases
+
+
+def scale_f32_cases(rng, count):
+    """the same with CMap2<f32> (implementation only): coordinates k/2^14 and k*2^30, exact in f32"""
+    cases = []
+    tags = ["snap0", "exp0", "exp32", "rt32", "snap1", "wf1"]
+    tail = ["snap", "vtkexp", "vtkexp32", "vtkrt32", "snap", "wf"]
+    for tag, f in SCALES32:
+        for split in (0, 1):
+            for (nx, ny) in [(1, 1), (2, 2), (3, 2)]:
+                ox, oy = f * rng.randint(-3, 3), f * rng.randint(-3, 3)
+                lx, ly = f * rng.choice([1, 2, 3]), f * rng.choice([1, 3, Fr(1, 2)])
+                cases.append(Case(f"f32-{tag}-grid{split}-{nx}x{ny}", [grid_line(split, ox, oy, nx, ny, lx, ly)] + tail,
+                                  oracle="rt32", meta={"sig": f"f32 {tag} scale grid", "tags": tags}))
+        for c in range(count):
+            b = strip_builder(rng, rng.randint(2, 3)).scale(f)
+            assert all(f32_exact(x) and f32_exact(y) for (x, y) in b.co[1:])
+            cases.append(Case(f"f32-{tag}-strip{c}", b.lines() + tail, oracle="rt32",
+                              meta={"sig": f"f32 {tag} scale polygons", "tags": tags}))
+            pts, tc = scaled_mesh(rng, f)
+            assert all(f32_exact(x) and f32_exact(y) and f32_exact(z) for (x, y, z) in pts)
+            d = data_str(pts, tc)
+            lines = ["new 2 0 0", f"vtkimp 0 {d}", "snap", f"vtkimpv 32 32 0 {d}", "snap", f"vtkimpv 64 32 0 {d}", "snap",
+                     f"vtkimpv 32 64 0 {d}", "snap"]
+            cases.append(Case(f"f32-{tag}-imp{c}", lines, oracle="imp32",
+                              meta={"sig": f"f32 {tag} scale import",
+                                    "tags": ["imp64", "snap64", "impA", "snapA", "impB", "snapB", "impC", "snapC"]}))
+    return cases
+
+
+# ---------------------------------------------------------------------------------------------
 # f32 (implementation only)
 # ---------------------------------------------------------------------------------------------
 
@@ -984,6 +1076,7 @@ def run(tier, seed):
     r["stats"]["exhaustive"] = True
     parts.append((f"export / round trip of every well-formed map with n<={3 if q else 4}", r))
     parts.append(("general well-formed maps", hv.campaign(export_general_cases(rng, 2000 if q else 20000), oracle)))
+    parts.append(("tiny and huge scales (2^-34, 2^30)", hv.campaign(scale_cases(rng, 25 if q else 250), oracle)))
     parts.append(("cracked grids", hv.campaign(cracked_grid_cases(rng, 150 if q else 1500, 4 if q else 7), oracle, max_report=10 ** 6)))
     rx = hv.campaign(excluded_cases(), oracle)
     observations = []
@@ -999,6 +1092,8 @@ def run(tier, seed):
     rx["violations"] = kept
     parts.append(("excluded points (DESIGN par.7)", rx))
     parts.append(("f32 (implementation only)", campaign_impl_only(f32_cases(rng, 100 if q else 1000))))
+    parts.append(("f32 tiny and huge scales (2^-14, 2^30; implementation only)",
+                  campaign_impl_only(scale_f32_cases(rng, 25 if q else 250))))
     res = hv.merge_results(parts)
     res["notes"] = res.get("notes", []) + observations + [
         "the builder's attribute manager is ignored by build_2d_from_vtk (`_manager`): from_vtk_file(..).add_attribute::<A>()"
